@@ -13,6 +13,7 @@ package parsesim
 import (
 	"fmt"
 	"regexp"
+	"runtime/debug"
 	"strconv"
 	"strings"
 	"testing"
@@ -153,6 +154,26 @@ func RunC02(env *sim.Env) {
 			src += strings.Repeat("p", want-len(src))
 		}
 		env.Stat("probe:source_length_on_a_block_boundary", 1)
+	}
+	// one run in 250: nesting as deep as the size cap allows - operators, parentheses, statements. The
+	// worker's goroutine stacks are limited to 64 MiB (a service with many goroutines cannot give each
+	// a gigabyte): a parser that recurses once per level without a bound dies with "stack overflow",
+	// which no recover() catches
+	if t.Choose(250) == 7 {
+		debug.SetMaxStack(64 << 20)
+		n := []int{2000, 30000, 250000}[t.Choose(3)]
+		switch t.Choose(3) {
+		case 0:
+			src = dc.l + strings.Repeat("!", n) + "x" + dc.r
+		case 1:
+			src = dc.l + strings.Repeat("(", n) + "1" + strings.Repeat(")", n) + dc.r
+		default:
+			open, end := dc.l+"if 1"+dc.r, dc.l+"end"+dc.r
+			m := n / len(open)
+			src = strings.Repeat(open, m) + "x" + strings.Repeat(end, m)
+		}
+		mutKind, mustReject = "deep-nesting", false
+		env.Stat("probe:nesting_as_deep_as_the_size_cap_allows", 1)
 	}
 	if len(src) > 1<<18 {
 		src = src[:1<<18]
